@@ -28,6 +28,10 @@ type c14Step struct {
 	Op    string `json:"op"` // ingest, merge
 	Rows  int    `json:"rows,omitempty"`
 	Parts int    `json:"parts,omitempty"`
+	// merge: the Merge's context is cancelled when the merge makes its N-th
+	// call of this kind ("" = never)
+	CancelKind string `json:"cancel_kind,omitempty"`
+	CancelN    int    `json:"cancel_n,omitempty"`
 }
 
 type c14Case struct {
@@ -52,7 +56,12 @@ func genC14() *rapid.Generator[c14Case] {
 		n := rapid.IntRange(2, 6).Draw(t, "nsteps")
 		for i := 0; i < n; i++ {
 			if i >= 2 && chance(t, "merge", 35) {
-				c.Steps = append(c.Steps, c14Step{Op: "merge"})
+				m := c14Step{Op: "merge"}
+				if chance(t, "cancelmerge", 30) {
+					m.CancelKind = pick(t, "ck", []string{"CreateFile", "Write", "Close", "OpenFile", "Read"})
+					m.CancelN = unif(t, "cn", 3)
+				}
+				c.Steps = append(c.Steps, m)
 			} else {
 				c.Steps = append(c.Steps, c14Step{Op: "ingest", Rows: rapid.IntRange(1, 3).Draw(t, "rows"), Parts: pick(t, "parts", []int{1, 2, 3, 0, 0})})
 			}
@@ -307,7 +316,20 @@ func runC14(c c14Case) *Violation {
 			where := fmt.Sprintf("probe query %s %s #%d (merge in progress: %v)", phase, ci.Kind, ci.KindSeq, inMerge)
 			viol = handleC14(c14Classify(c, v, where, srcIDs, inMerge))
 		}
-		tr.Before = func(ci *CallInfo) error { probe(ci, "before"); return nil }
+		var mergeCancel context.CancelFunc
+		var cancelKind string
+		var cancelN int
+		cancelSeen := map[string]int{}
+		tr.Before = func(ci *CallInfo) error {
+			if inMerge && cancelKind != "" && ci.Kind == cancelKind {
+				if cancelSeen[ci.Kind] == cancelN && mergeCancel != nil {
+					mergeCancel()
+				}
+				cancelSeen[ci.Kind]++
+			}
+			probe(ci, "before")
+			return nil
+		}
 		tr.After = func(ci *CallInfo, _ error) { probe(ci, "after") }
 		eng, err := bs.NewBloomSearchEngine(c14Config(), tr, tr)
 		if err != nil {
@@ -333,12 +355,26 @@ func runC14(c c14Case) *Violation {
 				}
 			case "merge":
 				srcIDs = idsOfWorld(ds, ms)
+				mctx, mcancel := context.WithCancel(ctx)
+				mergeCancel, cancelKind, cancelN, cancelSeen = mcancel, st.CancelKind, st.CancelN, map[string]int{}
 				inMerge = true
-				eng.Merge(ctx)
+				_, merr := eng.Merge(mctx)
 				inMerge = false
+				mcancel()
+				cancelKind = ""
+				if st.CancelKind != "" && merr != nil {
+					Ev.Class("window:merge-context-cancelled-mid-merge")
+				}
 			}
 			if viol != nil {
 				return viol
+			}
+			// whatever the step did (a Merge may have failed or been cancelled), it
+			// is over now: a quiet query sees every acknowledged row exactly once
+			if v, pv := c14Probe(probeEng, l, l.ackedSnapshot()); pv != nil {
+				return pv
+			} else if v2 := handleC14(c14Classify(c, v, fmt.Sprintf("probe query after step %s had returned", st.Op), nil, false)); v2 != nil {
+				return v2
 			}
 		}
 		Ev.Add("probe_queries", int64(probes))
